@@ -75,6 +75,9 @@ type wCfg struct {
 	Extra  bool    `json:"extra_arg,omitempty"`
 	Err    bool    `json:"err"`
 	Block  string  `json:"block"`
+	// Pre places another top-level set and injector EARLIER in the same wire file: "fieldsof-earlier" = a set with
+	// wire.FieldsOf on the same struct as this configuration's FieldsOf node (another field), used by its own injector
+	Pre string `json:"pre,omitempty"`
 }
 
 func isStructKind(k string) bool { return strings.HasPrefix(k, "S") }
@@ -225,6 +228,9 @@ func (c *wCfg) Spec() string {
 	if c.Err {
 		sb.WriteString(" err")
 	}
+	if c.Pre != "" {
+		sb.WriteString(" pre=" + c.Pre)
+	}
 	return sb.String()
 }
 
@@ -261,7 +267,11 @@ func (c *wCfg) Features() string {
 	if at == "" {
 		at = "provider"
 	}
-	return fmt.Sprintf("n=%d,target=%s,kinds=%s,bind=%s,bind-at=%s,sets=%s,args=%s,err=%s", len(c.Nodes), c.Nodes[c.target()].Kind, keys(ks), keys(bs), at, c.Sets, c.argMode(), errMode)
+	pre := ""
+	if c.Pre != "" {
+		pre = ",pre=" + c.Pre
+	}
+	return fmt.Sprintf("n=%d,target=%s,kinds=%s,bind=%s,bind-at=%s,sets=%s,args=%s,err=%s%s", len(c.Nodes), c.Nodes[c.target()].Kind, keys(ks), keys(bs), at, c.Sets, c.argMode(), errMode, pre)
 }
 
 // transDeps is the set of nodes node k transitively depends on.
@@ -558,6 +568,22 @@ func wireUniverse(tier string) ([]*wCfg, string) {
 		add(withArgs(b, "used"), "A")
 		add(withArgs(b, "partly"), "A")
 		add(withErr(b), "A")
+	}
+	// E: an earlier declaration of the same file uses wire.FieldsOf on the same struct (another field): state kept
+	// across the top-level declarations of one file shows in the configuration's own injector
+	for _, b := range small {
+		if b.preNode() < 0 {
+			continue
+		}
+		for _, sm := range []string{"flat", "var"} {
+			v := withSets(b, sm)
+			if v == nil {
+				continue
+			}
+			v = v.clone()
+			v.Pre = "fieldsof-earlier"
+			add(v, "E")
+		}
 	}
 	// B: n=3 shapes
 	if thorough {
@@ -918,7 +944,21 @@ func (c *wCfg) ProvidersSrc(pkg string) string {
 	if needTX {
 		tdef("TX")
 	}
+	if c.Pre != "" {
+		tdef("PreOut")
+		sb.WriteString("func NewPreUser(b string) *PreOut { return &PreOut{R: sym.Call(\"NewPreUser\")} }\n\n")
+	}
 	return sb.String()
+}
+
+// preNode is the FieldsOf node (pointer form) the earlier declaration of Pre shares its struct with; -1 if none.
+func (c *wCfg) preNode() int {
+	for k, n := range c.Nodes {
+		if n.Kind == kFOpa || n.Kind == kFOpf {
+			return k
+		}
+	}
+	return -1
 }
 
 // elems returns the wire.Build / wire.NewSet elements of node k: providers and the Bind (separately).
@@ -1041,7 +1081,11 @@ func (c *wCfg) WireFiles(pkg string) map[string]string {
 		files["wire_sets.go"] = hdr + sets
 		sets = ""
 	}
-	files["wire.go"] = "//go:build wireinject\n\n" + hdr + sets + inj
+	pre := ""
+	if k := c.preNode(); c.Pre != "" && k >= 0 {
+		pre = fmt.Sprintf("// an earlier, unrelated set and injector that read ANOTHER field of the same struct\nvar PreSet = wire.NewSet(wire.FieldsOf(new(*C%d), \"B\"), NewPreUser)\n\nfunc PreInit(c *C%d) *PreOut {\n\twire.Build(PreSet)\n\treturn nil\n}\n\n", k, k)
+	}
+	files["wire.go"] = "//go:build wireinject\n\n" + hdr + pre + sets + inj
 	return files
 }
 
